@@ -516,13 +516,17 @@ def shared_cell_lines(module):
 class Controlled:
     """Context manager: parallel_utils runs under `sched` inside the block."""
 
-    def __init__(self, choose, line_files=()):
+    def __init__(self, choose, line_files=(), pu_lines=False):
         """line_files: source files in which EVERY line executed by a virtual
         thread is a scheduling point once a second thread exists (dataset code
         shared between pool workers)."""
         import lazy_dataset.parallel_utils as pu
         self.pu = pu
         line_files = frozenset(line_files)
+        # pu_lines: EVERY line of parallel_utils.py is a scheduling point (not
+        # only the lines touching the closure cells found by shared_cell_lines);
+        # only for free-running choosers - the schedules of the specification
+        # are counted in operations of the specification
         self.sched = Scheduler(choose)
         self.lines = shared_cell_lines(pu)
         # ordinal tags: the k-th line (in source order) per (thread role, cell, kind)
@@ -560,6 +564,9 @@ class Controlled:
                         val = -1
                 sched.log(('rd_' if kind == 'rd' else 'wr_') + ('sd' if cell == 'shutdown' else 'exc'),
                           tags[frame.f_lineno], val)
+            elif event == 'line' and pu_lines and len(sched.vts) >= 2 and not sched.aborted \
+                    and getattr(sched.tls, 'vt', None) is not None:
+                sched.point('ln')        # (frame.f_locals is not touched here)
             return local_trace
 
         def shared_trace(frame, event, arg):
